@@ -38,7 +38,7 @@ import contextlib
 import io
 import os
 
-from mc.engine import Check, Res, explore_choices
+from mc.engine import Check, Res, Diverged, explore_choices
 from mc import rex_alphabet as A
 from mc import rex_seams as S
 from mc.models import rex_spec as M
@@ -111,7 +111,27 @@ class RexDriver(Check):
     def hashseeds(self, tier, verif_seed):
         return [verif_seed % 3] if tier == 'quick' else [0, 1, 2]
 
+    def extra_coverage(self):
+        tier = getattr(self, '_tier', 'quick')
+        ax = self.axes()
+        return {
+            'alphabet': {'sigma_q': len(A.SIGMA_Q), 'sigma_t': len(A.SIGMA_T),
+                         'strings_q_L2': len(self.pool_q()),
+                         'structured': len(A.STRUCTURED),
+                         'structured_sets': len(A.STRUCTURED_SETS)},
+            'option_lattice_points': len(A.option_lattice(None, ax)),
+            'deviation_bound': ('configuration: full lattice for sets of '
+                                'size <=1, <=2 options changed for pairs%s; '
+                                'sampled path: full choice tree of every '
+                                'random.sample call (unbounded)'
+                                % ('' if tier == 'quick' else
+                                   ' plus the full lattice for pairs over '
+                                   'Sigma_q')),
+            'size_settings': len(A.SIZE_SETTINGS(tier)),
+        }
+
     def layers(self, tier):
+        self._tier = tier
         L = [('n01-full', 'example sets of size <=1 (empty, null, every '
               'string over Sigma_q up to length 2, all 128 ASCII characters, '
               'structured and >99-fragment strings) and hand-picked larger '
@@ -132,9 +152,10 @@ class RexDriver(Check):
                    'the rest of the full lattice [hash seed 0 only]'),
                   ('t-n3-dev2', 'all triples of the 40-string sub-alphabet x '
                    'options within 2 deviations [hash seed 0 only]'),
-                  ('t-sampled', 'E2: sets of 3-6 from the 10-string pool '
+                  ('t-sampled', 'E2: sets of 3-5 from the 10-string pool '
                    '(with ^ - and a non-ASCII digit) x 27 Size settings x '
-                   'seeds, list and dict forms, reversed sample order '
+                   'seeds None/0/1, plus dict form and reversed sample order '
+                   'at seed None; sets of 6 x 8 Size settings '
                    '[hash seed 0 only]'),
                   ('t-n2-rest', 'all pairs over Sigma_q (L<=2) x the rest of '
                    'the full lattice (3+ deviations) [hash seed 0 only]'),
@@ -180,7 +201,7 @@ class RexDriver(Check):
                       + A.strings_upto(A.SIGMA_Q, 3)):
                 if s not in seen:
                     seen.add(s)
-                    yield {'ex': [s], 'pts': 'full', 'forms': 'all'}
+                    yield {'ex': [s], 'pts': 'full', 'forms': 'list'}
         elif layer == 't-ascii2':
             for xs in A.example_sets(ASCII_SINGLES, 2):
                 yield {'ex': xs, 'pts': 'dev1', 'forms': 'list'}
@@ -191,10 +212,16 @@ class RexDriver(Check):
             for xs in A.example_sets(A.sub_alphabet(40), 3):
                 yield {'ex': xs, 'pts': 'dev2', 'forms': 'all'}
         elif layer == 't-sampled':
-            for c in self.sampled_cases(T_SAMPLED_POOL, (3, 4, 5, 6),
+            for c in self.sampled_cases(T_SAMPLED_POOL, (3, 4, 5),
                                         A.SIZE_SETTINGS('thorough'), A.SEEDS,
                                         ['list', 'dict'],
                                         ['canonical', 'reversed']):
+                if c['form'] == 'dict' and c['order'] == 'reversed':
+                    continue
+                yield c
+            for c in self.sampled_cases(T_SAMPLED_POOL, (6,),
+                                        A.SIZE_SETTINGS('quick'), [None],
+                                        ['list'], ['canonical']):
                 yield c
         elif layer == 't-n2-rest':
             for xs in A.example_sets(self.pool_q(), 2):
@@ -228,9 +255,8 @@ class RexDriver(Check):
         return ax
 
     def points(self, name):
-        """[(form, opts)] for a named set of option points.  Form counts as
-        one deviation; pandas forms exist only at the default options
-        (pdextract takes none)."""
+        """Option dicts of a named point set: 'full' (whole lattice), 'devN'
+        (within N deviations of the default), 'rest' (more than 2)."""
         cache = self.__dict__.setdefault('_pts', {})
         if name in cache:
             return cache[name]
@@ -246,6 +272,8 @@ class RexDriver(Check):
         return opts
 
     def form_points(self, pts, forms):
+        """[(form, opts)].  The input form counts as one deviation; pandas
+        forms exist only at the default options (pdextract takes none)."""
         key = (pts, forms)
         cache = self.__dict__.setdefault('_fpts', {})
         if key in cache:
@@ -314,6 +342,8 @@ class RexDriver(Check):
                         rex = x.results.rex if x.results else []
                     else:
                         rex = self.pkg.extract(data, **kw)
+        except Diverged:                # harness: choice replay went astray
+            raise
         except Exception as e:          # noqa - classified by the caller
             return None, None, e
         return list(rex), x, None
@@ -403,8 +433,16 @@ class RexDriver(Check):
                 else:
                     need[k] = cur[k]
         cur_s = supplied
+        # examples that are not needed
+        for e in list(supplied):
+            if isinstance(cur_s, dict):
+                trial = dict((k, v) for (k, v) in cur_s.items() if k != e)
+            else:
+                trial = [x for x in cur_s if x != e]
+            if len(trial) < len(cur_s) and trial and fails(trial, cur):
+                cur_s = trial
         needc = []
-        strings = [s for s in supplied if s is not None]
+        strings = [s for s in cur_s if s is not None]
         for c in sorted(set(''.join(strings))):
             if c == 'q':
                 continue
